@@ -6,7 +6,7 @@ import zlib
 
 import numpy as np
 
-from ..core import outcome_of
+from ..core import idx, outcome_of
 
 HUGE = [2.0**31 + 0.5, 1e12, 3e18, 1e19, 1e300]
 
@@ -20,8 +20,8 @@ def _sl(r):
 
 def _enc(s):
     if isinstance(s, (int, np.integer)):
-        return {"int": int(s)}
-    o = lambda v: [] if v is None else [int(v)]  # noqa: E731
+        return {"int": idx(s)}
+    o = lambda v: [] if v is None else [idx(v)]  # noqa: E731
     return {"start": o(s.start), "stop": o(s.stop), "step": o(s.step)}
 
 
@@ -72,7 +72,7 @@ def execute(case):
             r = R.roi_normalise(roi[0], shape[0]) if scalar else R.roi_normalise(roi, shape)
             return [_enc(r)] if scalar else [_enc(s) for s in r]
         if op == "shape":
-            return [int(v) for v in R.roi_shape(roi[0] if scalar else roi)]
+            return [idx(v) for v in R.roi_shape(roi[0] if scalar else roi)]
         if op == "empty":
             return bool(R.roi_is_empty(roi[0] if scalar else roi))
         if op == "full":
@@ -92,7 +92,7 @@ def execute(case):
             up = R.scaled_up_roi(down, k)
             upc = R.scaled_up_roi(down, k, shp2)
             dsh = R.scaled_down_shape(shp2, k)
-            return [{"down": _enc(down[i]), "up": _enc(up[i]), "upc": _enc(upc[i]), "dshape": int(dsh[i])}
+            return [{"down": _enc(down[i]), "up": _enc(up[i]), "upc": _enc(upc[i]), "dshape": idx(dsh[i])}
                     for i in range(len(axes))]
         raise KeyError(op)
 
